@@ -81,7 +81,7 @@ func TestC19(t *testing.T) {
 	perSc := map[string]int{} // closure starts kept per scenario (a single cap would be used up by the first scenario)
 	seenSc := map[string]int{}
 	k := 0
-	runWorld(t, run, []scOpt{s2, s3, s3m, s3again, s3back}, []func(*w.MonCtx){w.MonC19}, 0, func(sc *w.Scenario, s *w.State, d int) {
+	runWorld(t, run, []scOpt{s2, s3, s3m, s3again, s3back}, []func(*w.MonCtx){w.MonC19, w.MonC14Status}, 0, func(sc *w.Scenario, s *w.State, d int) {
 		if s.Mem["lastcmd"] != "" {
 			k++
 			seenSc[sc.Name]++
